@@ -151,7 +151,12 @@ func genConfig(r *hx.Rand, valid bool, sum *hx.Summary) *genCfg {
 	// upstreams
 	nu := 1 + r.Intn(3)
 	for i := 0; i < nu; i++ {
-		u := config.UpstreamConfig{Name: "u" + fmt.Sprint(r.Intn(4)), HealthCheck: r.Pick([]string{"", "/ping"}),
+		uname := "u" + fmt.Sprint(r.Intn(4))
+		if r.Chance(12) { // names that look like variable references are names like any other
+			uname = r.Pick([]string{"$u1", "$", "${u2}", "$HOME"})
+			sum.Count("upstream-name-with-dollar")
+		}
+		u := config.UpstreamConfig{Name: uname, HealthCheck: r.Pick([]string{"", "/ping"}),
 			Policy: r.Pick([]string{"", "first", "roundRobin", "random", "leastconn"}), AcceptEncoding: r.Pick([]string{"", "gzip", "gzip, br"})}
 		ok := true
 		ns := 1 + r.Intn(2)
@@ -566,6 +571,15 @@ type robs struct {
 	Extra   map[string]interface{} // compared live vs fresh on the Go side only
 }
 
+// reconfProbeBody: 24 KB of text whose gzip / brotli sizes differ between levels
+var reconfProbeBody = func() []byte {
+	var b []byte
+	for i := 0; len(b) < 24000; i++ {
+		b = append(b, []byte(fmt.Sprintf("line %d: the quick brown fox jumps over the lazy dog %d times; ", i, i*i%97))...)
+	}
+	return b
+}()
+
 func observeRegistries(addrs, upNames, cacheNames, profNames, locNames []string) robs {
 	var o robs
 	for _, a := range addrs {
@@ -618,6 +632,10 @@ func observeRegistries(addrs, upNames, cacheNames, profNames, locNames []string)
 	for _, n := range profNames {
 		srv := compress.Get(n)
 		o.Levels = append(o.Levels, fmt.Sprintf("(%s, (%s, %s))", hx.Str(n), hx.Z(int64(srv.GetLevel("gzip"))), hx.Z(int64(srv.GetLevel("br")))))
+		// what the profile's encoders actually produce for a fixed body (the level in effect shows in the size)
+		gz, _ := srv.Gzip(reconfProbeBody)
+		br, _ := srv.Brotli(reconfProbeBody)
+		o.Extra["encoded-probe:"+n] = map[string]interface{}{"gzip_len": len(gz), "br_len": len(br)}
 	}
 	for _, h := range []string{"aa.com", "bb.com", "zz.com"} {
 		for _, u := range []string{"/", "/api/v1/x", "/static/y"} {
@@ -842,6 +860,13 @@ func runReconf(seed uint64, n int, tier string, out string, replay string) {
 				}
 			}
 			applyConfig(&g.cfg)
+			// the running instance serves compressed responses under every configuration of the sequence
+			for _, pn := range probe.Profiles {
+				if sv := compress.Get(pn); sv != nil {
+					_, _ = sv.Gzip(reconfProbeBody)
+					_, _ = sv.Brotli(reconfProbeBody)
+				}
+			}
 		}
 		live := observeRegistries(probe.Addrs, probe.Ups, probe.Caches, probe.Profiles, probe.Locs)
 		var retained []string
